@@ -475,7 +475,70 @@ def standin_orderings(tier, seed):
                 cases=cases, distinct=cases, failures=len(fails), exhaustive=True, _fails=fails[:4])
 standin_orderings.prop = "C11"
 
-STANDINS = [standin_corpus, standin_roundtrip, standin_orderings]
+_FOREIGN = [
+    "cirq.NamedQubit('alpha')", "cirq.NamedQid('beta', dimension=3)", "cirq.LineQubit(3)", "cirq.GridQubit(2, 5)", "cirq.GridQid(1, 2, dimension=3)", "cirq.LineQid(4, dimension=5)",
+    "cirq_google.Coupler(cirq.NamedQubit('a'), cirq.NamedQubit('b'))", "cirq_google.Coupler(cirq.GridQubit(0, 0), cirq.GridQubit(0, 1))", "cirq_google.Coupler(cirq.NamedQid('a', dimension=3), cirq.NamedQid('c', dimension=3))",
+    "cirq.MeasurementKey('k')", "cirq.MeasurementKey('k', path=('p', 'q'))", "cirq.X(cirq.NamedQubit('a'))", "cirq.CZ(cirq.NamedQubit('a'), cirq.NamedQubit('b')).with_tags('t')",
+    "cirq.Moment(cirq.X(cirq.NamedQubit('a')), cirq.measure(cirq.NamedQubit('b'), key='m'))", "cirq.FrozenCircuit(cirq.H(cirq.NamedQubit('a')), cirq.measure(cirq.NamedQubit('a'), key='m'))",
+    "cirq.PauliString({cirq.NamedQubit('a'): cirq.X, cirq.NamedQubit('b'): cirq.Z})", "cirq.CircuitOperation(cirq.FrozenCircuit(cirq.X(cirq.NamedQubit('a'))))", "cirq.ParamResolver({'s': 0.5})", "cirq.GateFamily(cirq.X)",
+    "cirq.Gateset(cirq.X, cirq.CZ, name='g')", "cirq.ProductState({cirq.NamedQubit('a'): cirq.KET_PLUS})", "cirq_pasqal.ThreeDQubit(1, 2, 3)", "cirq_pasqal.TwoDQubit(1, 2)", "cirq.SingleQubitCliffordGate.H", "cirq.Duration(nanos=5)",
+    "cirq_google.PhysicalZTag()", "cirq_google.InternalGate('g', 'n', 1)", "cirq.ops.InsertStrategy.EARLIEST" if False else "cirq.KET_ZERO",
+]
+
+
+def standin_foreign_pickles(tier, seed):
+    """pickles written by ANOTHER interpreter (its own string-hash seed, values hashed before pickling so that any cached hash is filled in) and loaded
+    here: the loaded value equals a value built here from the same expression, has the same hash, and is found in sets / dict keys built here"""
+    import base64
+    import subprocess
+    import sys
+
+    F_ = "cirq-*[pickles across interpreters]"
+    child = (
+        "import sys, pickle, base64\n"
+        f"sys.path[:0] = [{REPO!r} + '/' + p for p in ('cirq-core', 'cirq-google', 'cirq-ionq', 'cirq-aqt', 'cirq-pasqal')]\n"
+        "import cirq, cirq_google, cirq_pasqal\n"
+        "for line in sys.stdin.read().splitlines():\n"
+        "    v = eval(line)\n"
+        "    hash(v); {v: 1}\n"
+        "    sys.stdout.write(base64.b64encode(pickle.dumps(v)).decode() + '\\n')\n"
+    )
+    env = dict(os.environ, PYTHONHASHSEED=str(1000 + seed % 1000))
+    cases, fails = 0, []
+    try:
+        out = subprocess.run([sys.executable, "-c", child], input="\n".join(_FOREIGN), capture_output=True, text=True, env=env, timeout=300)
+    except Exception as ex:
+        return dict(function=F_, case="foreign-pickles", bound="child interpreter could not be started: " + repr(ex)[:100], cases=0, distinct=0, failures=0, exhaustive=False, _fails=[])
+    lines = out.stdout.splitlines()
+    if out.returncode != 0 or len(lines) != len(_FOREIGN):
+        fails.append(dict(args=dict(stderr=out.stderr[-600:]), failed="foreign-pickle-raised", clause="hashing and pickling the values in a fresh interpreter failed"))
+        lines = []
+    import cirq
+    import cirq_google
+    import cirq_pasqal
+
+    for expr, blob in zip(_FOREIGN, lines):
+        cases += 1
+        try:
+            here = eval(expr)
+            there = pickle.loads(base64.b64decode(blob))
+        except Exception as ex:
+            fails.append(dict(args=dict(value=expr), failed="foreign-pickle-raised", clause=f"{ex!r}"))
+            continue
+        if not _eq(there, here):
+            fails.append(dict(args=dict(value=expr), failed="foreign-pickle-differs", clause="a pickle written by another interpreter loads as a value different from the one the same expression builds here"))
+        elif hash(there) != hash(here) or there not in {here} or {here: 1}.get(there) != 1:
+            fails.append(dict(args=dict(value=expr), failed="foreign-pickle-hash", clause="a value loaded from another interpreter's pickle equals the local value but hashes differently (a cached hash travelled with the pickle)"))
+        else:
+            again = pickle.loads(pickle.dumps(there))
+            if hash(again) != hash(here):
+                fails.append(dict(args=dict(value=expr), failed="foreign-pickle-hash", clause="re-pickling the loaded value carries a stale hash forward"))
+    return dict(function=F_, case="foreign-pickles", bound=f"{len(_FOREIGN)} hashable values (qubits of every family, couplers, keys, operations, moments, frozen circuits, Pauli strings, gatesets) hashed and pickled in a child interpreter with another PYTHONHASHSEED",
+                cases=cases, distinct=cases, failures=len(fails), exhaustive=False, _fails=fails[:4])
+standin_foreign_pickles.prop = "C11"
+
+
+STANDINS = [standin_corpus, standin_roundtrip, standin_orderings, standin_foreign_pickles]
 NOT_COVERED = ["instances of classes whose stored documents have no numeric/boolean leaves are only covered by their stored examples", "behavioural equality beyond ==/hash (e.g. unitaries) is not compared",
                "legacy contextual-serialization documents (_SerializedKey/_SerializedContext): corpus only"]
 EXPLANATION = "corpus reading, round trips of stored and generated values, repr/copy/pickle laws and mixed-family qubit orderings are bounded stand-ins. "
